@@ -126,18 +126,29 @@ theorem C06_recon_length (n ss : Nat) (rnd : Bool) (s0 N : Nat) (draw : Nat → 
     (reconSchedule n ss rnd s0 N draw).length = N + 1 - s0 :=
   reconSchedule_length n ss rnd s0 N draw
 
-/-- every sub-iteration of the run gets a valid subset number — proved only for runs in fixed order or starting at the
-    first sub-iteration of an iteration.  Missing: randomised order with `(start_subiteration_num - 1) % num_subsets ≠ 0`,
-    where `get_subset_num` indexes `_current_subset_array` before it was generated (`C06_recon_restart_fails`). -/
-theorem C06_recon_defined_partial (n ss s0 N : Nat) (rnd : Bool) (draw : Nat → Nat) (hn : 0 < n)
-    (h : rnd = false ∨ (s0 - 1) % n = 0) :
+/-- **every sub-iteration gets a valid subset number** — "subset schedules for all (num_subsets, start_subset,
+    start_subiteration, randomise on/off)": for every start sub-iteration (also inside a full iteration), number of
+    sub-iterations, start subset, randomised or not, whatever `rand()` returns, `get_subset_num` never indexes
+    `_current_subset_array` outside its range and returns a number `< num_subsets`.
+    (Before the repair bfafc063a this held only for fixed order or `(start_subiteration_num - 1) % num_subsets = 0`.) -/
+theorem C06_recon_defined (n ss s0 N : Nat) (rnd : Bool) (draw : Nat → Nat) (hn : 0 < n) :
     ∀ e ∈ reconSchedule n ss rnd s0 N draw, ∃ x, e = some x ∧ x < n :=
-  recon_defined n ss s0 N rnd draw hn h
+  recon_defined n ss s0 N rnd draw hn
 
-/-- negative witness: 2 subsets, randomised order, run started at sub-iteration 2 of 4: the first subset number is read
-    from the empty array (the following full iteration is fine) -/
-theorem C06_recon_restart_fails :
-    reconSchedule 2 0 true 2 4 (fun _ => 0) = [none, some 0, some 1] := by decide
+/-- **the iteration in which a run starts**: the sub-iterations `s0, s0+1, …` up to the end of the full iteration that
+    contains `s0` (all `num_subsets` of them if `s0` starts an iteration, fewer for a resumed run) use pairwise distinct
+    subsets — randomised (they are read from one freshly generated permutation) or not. `1 ≤ s0` is what `set_up` enforces. -/
+theorem C06_recon_first_iteration_nodup (n ss s0 N : Nat) (rnd : Bool) (draw : Nat → Nat) (hn : 0 < n) (hs : 1 ≤ s0) :
+    ((reconSchedule n ss rnd s0 N draw).take (n - (s0 - 1) % n)).Nodup :=
+  recon_first_iteration_nodup n ss s0 N rnd draw hn hs
+
+/-- regression witness for the input on which the code before bfafc063a failed: 2 subsets, randomised order, run started
+    at sub-iteration 2 of 4.  The old `get_subset_num` generated the order only when `(subiteration_num - 1) % num_subsets
+    == 0`, so sub-iteration 2 indexed the still empty `_current_subset_array` (SIGSEGV; the old model gave
+    `[none, some 0, some 1]`).  The repaired code generates an order at sub-iteration 2 (array length 0 ≠ 2), reads its
+    position 1, and generates the next one at sub-iteration 3. -/
+theorem C06_recon_restart_regression :
+    reconSchedule 2 0 true 2 4 (fun _ => 0) = [some 1, some 0, some 1] := by decide
 
 /-! non-vacuity -/
 example : reconSchedule 3 1 false 2 7 (fun _ => 0) = [some 2, some 0, some 1, some 2, some 0, some 1] := by decide
